@@ -12,6 +12,7 @@ import RbV.Thm.GenSrcHorspoolNew
 import RbV.Thm.GenSrcShiftAndNext
 import RbV.Thm.GenSrcKmpNext
 import RbV.Thm.GenSrcHorspoolNext
+import RbV.Thm.GenSrcBndmNext
 /-!
 # C08 — exact matchers return exactly all occurrences
 
@@ -312,5 +313,41 @@ theorem horspool_next_source_eq_model (p t : List Nat) (hp : 0 < p.length) (hb :
 
 example : GenSrcHorspoolNext.findAllSrc [1, 2, 1] [1, 2, 1, 2, 1] = Rs.Res.ok [0, 2] := by
   rw [horspool_source_exact _ _ (by decide) (by decide) (by decide) (by decide)]; decide
+
+/-- **BNDM end to end on the translated source text**: `BNDM::new(p)` (the translated `shift_and::masks` on the reversed
+pattern, the `m <= 64` assertion), `.find_all(t)` and `Matches::next` until `None`, as written in `bndm.rs` (outer window
+loop, inner `while active != 0` with its `break`, `text[window - j]`, `window - m`, `m - lastsuffix`, the saturated
+start value of `active`), never panic, never run out of the loop fuel and list exactly the occurrences of `p` in `t`, for
+every byte pattern of 1..64 symbols and every byte text with `|t| + |p| < 2^64`. -/
+theorem bndm_source_exact (p t : List Nat) (hp : 0 < p.length) (hm : p.length ≤ 64) (hbp : ∀ c ∈ p, c < 256)
+    (hb : ∀ c ∈ t, c < 256) (h64 : t.length + p.length < 2 ^ 64) :
+    GenSrcBndmNext.findAllSrc p t = Rs.Res.ok (occurrences p t) :=
+  GenSrcBndmNext.findAllSrc_eq_model p t hp hm hbp hb h64
+
+/-- one call of the translated `next` from window position `window ≥ m`: no panic; `None` only if the model finds nothing
+from there; `Some(v)` with `v` the model's next match, and the model continues from the new window (`G` = the mirror model's
+`Bndm.outer` with sufficient fuel) -/
+theorem bndm_next_source_eq_model (p t : List Nat) (hp : 0 < p.length) (hm : p.length ≤ 64) (hb : ∀ c ∈ t, c < 256)
+    (h64 : t.length + p.length < 2 ^ 64) (window : Nat) (hw : p.length ≤ window) :
+    ∃ w' r, GenSrcBndmNext.nextS p t window = Rs.Res.ok (w', r) ∧
+      ((r = none ∧ GenSrcBndmNext.G p t window = []) ∨
+       (∃ v, r = some v ∧ window < w' ∧ p.length ≤ w' ∧
+          GenSrcBndmNext.G p t window = v :: GenSrcBndmNext.G p t w')) :=
+  GenSrcBndmNext.next_eq_model p t hp hm hb h64 window hw
+
+/-- the translated inner loop follows the mirror model's `Bndm.inner` step by step (whatever the tables) -/
+theorem bndm_inner_source_eq_model (ms : ShiftAnd.MState) (m : Nat) (t : List Nat) (window : Nat)
+    (hb : ∀ c ∈ t, c < 256) (hw : window + 1 < 2 ^ 64) (fuel j active ls : Nat) (occ0 : Option Nat) (b : Bool)
+    (ls' : Nat) (h : Bndm.inner ms m t window fuel j active ls = some (b, ls')) :
+    ∃ a' j', Gen.SrcBndmNext.next_while2 (GenSrc.tab 256 ms.masks) t window ms.accept m (fuel + 1) (active, occ0, ls, j)
+      = Rs.Res.ok (a', (if b then some (window - m) else occ0), ls', j') :=
+  GenSrcBndmNext.while2_eq ms m t window hb hw fuel j active ls occ0 b ls' h
+
+/-- the translated constructor refuses patterns of more than 64 symbols -/
+theorem bndm_new_source_long_panics (p : List Nat) (hm : 64 < p.length) : Gen.SrcBndmNext.new p = Rs.Res.panic :=
+  GenSrcBndmNext.new_long_panics p hm
+
+example : GenSrcBndmNext.findAllSrc [1, 2, 1] [1, 2, 1, 2, 1] = Rs.Res.ok [0, 2] := by
+  rw [bndm_source_exact _ _ (by decide) (by decide) (by decide) (by decide) (by decide)]; decide
 
 end RbV.Thm.C08
